@@ -22,16 +22,19 @@
 From stdpp Require Import gmap.
 From Coq Require Import NArith.
 
-Section store.
-Context {B : Type}.
-
 (** stamp, and the bytes ([None] = tombstone) *)
-Definition entry : Type := N * option B.
+Notation entry B := (N * option B)%type.
 (** one keyspace *)
-Definition kmap : Type := gmap N entry.
+Notation kmap B := (gmap N (entry B)).
 (** the whole store: keyspace -> map.  A keyspace bound to the empty map and an
     unbound keyspace are indistinguishable by every observer below. *)
-Definition store : Type := gmap N kmap.
+Notation store B := (gmap N (kmap B)).
+
+Section store.
+Context {B : Type}.
+Notation entry := (entry B).
+Notation kmap := (kmap B).
+Notation store := (store B).
 
 Definition empty_store : store := ∅.
 
@@ -189,9 +192,6 @@ Definition legacy_sqlite_multi_get (s : store) (ks : N) (ids : list N)
 
 End store.
 
-Arguments entry : clear implicits.
-Arguments kmap : clear implicits.
-Arguments store : clear implicits.
 Arguments op : clear implicits.
 Arguments call : clear implicits.
 Arguments atom : clear implicits.
